@@ -462,9 +462,10 @@ type Specs struct {
 }
 
 type SpecFun struct {
-	Name string
-	Args []string
-	Ret  string
+	Name    string
+	Args    []string
+	Ret     string
+	Declare bool // declared by a contract file: the engine emits the declare-fun
 }
 
 var reProps = regexp.MustCompile(`^\[([A-Z0-9, ]+)\]`)
@@ -801,6 +802,7 @@ func (sp *Specs) parseFile(path string) error {
 			if err != nil {
 				return errf("%v", err)
 			}
+			sf.Declare = true
 			sp.SpecFuns[sf.Name] = sf
 		default:
 			if cur == nil {
